@@ -204,8 +204,67 @@ def replay_encode(case):
     return bad, cnt
 
 
+def replay_custom(case):
+    """user-supplied coding matrices (array, list and dict forms): rows of the matrix per level, zero row for null / unseen, names given or 1..k"""
+    import pandas
+    from formulaic import model_matrix
+    from formulaic.transforms import encode_contrasts
+    from formulaic.transforms.contrasts import CustomContrasts
+    from formulaic.model_spec import ModelSpec
+
+    n, li = case["n"], case["li"]
+    M = fl(case["m"])
+    k = M.shape[1]
+    exp = fl(case["enc"]).reshape(len(li), k)
+    levels = [f"l{i}" for i in range(1, n + 1)]
+    bad, cnt = [], 0
+    forms = {"array": (CustomContrasts(M), list(range(1, k + 1))), "list+names": (CustomContrasts(M.tolist(), names=[f"c{j}" for j in range(k)]), [f"c{j}" for j in range(k)]),
+             "dict": (CustomContrasts({f"d{j}": M[:, j].tolist() for j in range(k)}), [f"d{j}" for j in range(k)])}
+    for zero_as in ("null", "unseen"):
+        data = [levels[l - 1] if l > 0 else (None if zero_as == "null" else "UNSEEN") for l in li]
+        base = {"contrast": {"name": "custom", "matrix": case["mi"]}, "n": n, "data": [str(d) for d in data]}
+        for fname, (con, names) in forms.items():
+            for output in ("pandas", "numpy", "sparse"):
+                for reduced in (True, False):
+                    cnt += 1
+                    try:
+                        with warnings.catch_warnings():
+                            warnings.simplefilter("ignore")
+                            enc = encode_contrasts(pandas.Series(data, dtype=object), contrasts=con, levels=levels, reduced_rank=reduced, output=output,
+                                                   _spec=ModelSpec(formula=[], output=output))
+                        arr = dense(enc) if output == "sparse" else numpy.asarray(enc, dtype=float)
+                        if not close(arr.reshape(exp.shape) if arr.size == exp.size else arr, exp):
+                            bad.append({**base, "labeling": fname, "output": output, "reduced": reduced, "why": "encoded values (custom contrasts)", "observed": arr.tolist(), "expected": exp.tolist()})
+                        if list(con.get_coding_column_names(levels, reduced_rank=reduced)) != names:
+                            bad.append({**base, "labeling": fname, "output": output, "reduced": reduced, "why": "custom contrast column names",
+                                        "observed": list(con.get_coding_column_names(levels, reduced_rank=reduced)), "expected": names})
+                    except Exception as e:  # noqa
+                        bad.append({**base, "labeling": fname, "output": output, "reduced": reduced, "why": "exception", "observed": type(e).__name__ + ": " + str(e)[:150]})
+        if zero_as == "null":
+            # through formulas: a dict literal and a context-provided matrix, with and without an intercept (the rank requested does not matter)
+            df = pandas.DataFrame({"x": pandas.Series(data, dtype=object)})
+            dlit = "{" + ", ".join(f"'d{j}': {[float(v) for v in M[:, j]]}" for j in range(k)) + "}"
+            for f, names, ctx in ((f"C(x, {dlit}, levels={levels!r})", [f"d{j}" for j in range(k)], {}), (f"C(x, MAT, levels={levels!r})", list(range(1, k + 1)), {"MAT": M})):
+                for icpt in (True, False):
+                    cnt += 1
+                    try:
+                        with warnings.catch_warnings():
+                            warnings.simplefilter("ignore")
+                            mm = model_matrix(("" if icpt else "0 + ") + f, df, na_action="ignore", output="numpy", context=ctx)
+                        arr = numpy.asarray(mm, dtype=float)[:, (1 if icpt else 0):]
+                        got = [c.replace('"', "'") for c in mm.model_spec.column_names][(1 if icpt else 0):]
+                        want = [f"{f}[{nm}]".replace('"', "'") for nm in names]
+                        if not close(arr, exp):
+                            bad.append({**base, "labeling": "formula", "why": "model_matrix with custom contrasts", "formula": f, "observed": arr.tolist(), "expected": exp.tolist()})
+                        elif got != want:
+                            bad.append({**base, "labeling": "formula", "why": "column names of custom contrasts through a formula", "observed": got, "expected": want})
+                    except Exception as e:  # noqa
+                        bad.append({**base, "labeling": "formula", "why": "exception in model_matrix", "formula": f, "observed": type(e).__name__ + ": " + str(e)[:150]})
+    return bad, cnt
+
+
 def replay_case(case):
-    return {"matrix": replay_matrix, "poly": replay_poly, "encode": replay_encode}[case["kind"]](case)
+    return {"matrix": replay_matrix, "poly": replay_poly, "encode": replay_encode, "custom": replay_custom}[case["kind"]](case)
 
 
 def run(ctx: Ctx) -> None:
